@@ -9,6 +9,7 @@ import (
 	"strings"
 	"sync"
 	"sync/atomic"
+	"time"
 
 	"github.com/robfig/soy/soyhtml"
 
@@ -97,6 +98,7 @@ type SoloRender struct {
 // ChildOutput is the result of a child.
 type ChildOutput struct {
 	Phase        string       `json:"phase"`
+	WallS        float64      `json:"wallS"`
 	RaceBuild    bool         `json:"raceBuild"`
 	ForcedRuns   int          `json:"forcedRuns"`
 	ForcedInSync int          `json:"forcedInSync"`
@@ -151,6 +153,7 @@ func RunChild(inPath, outPath string) {
 		fmt.Fprintln(os.Stderr, "c09 child:", err)
 		os.Exit(3)
 	}
+	start := time.Now()
 	c := &child{in: &in, out: &ChildOutput{Phase: in.Phase, RaceBuild: RaceEnabled}}
 	func() {
 		defer func() {
@@ -178,14 +181,16 @@ func RunChild(inPath, outPath string) {
 			r.Phase = in.Phase
 			r.Origin = c.origins[i]
 			for _, a := range r.Accesses {
-				if f := c08.Resolve(c.regions, uintptr(a.Addr)); f != "" {
-					r.Field = f
+				if f, d := c08.Resolve(c.regions, uintptr(a.Addr)); f != "" {
+					r.AddrIn, r.depth = f, d
 					break
 				}
 			}
 		}
+		unifyBySite(reports)
 		c.out.Races = reports
 	}
+	c.out.WallS = time.Since(start).Seconds()
 	res, _ := json.Marshal(c.out)
 	if err := os.WriteFile(outPath, res, 0o644); err != nil {
 		fmt.Fprintln(os.Stderr, "c09 child:", err)
